@@ -12,6 +12,12 @@ ENGINES = [
      'kind_free_text': 'preemption-bounded controlled scheduler over compiler-inserted load/store hooks with conflict (race) monitor'},
 ]
 TEXT = {
+    'C12': {
+        'level': 'Explicit-state breadth-first search over histories of ~215 operations on two Value registers plus a pointee: 54 actions (every assignment overload, every += overload, Merge copy/move, Remove x3, RemoveIndex, Reset, Compress, Sort, Get, Insert, four [] overloads, pointer-to-value) applied at the root and at child paths reached through the creating accessors, 17 constructors executed in 0xAB-filled storage, partner operations on the second register. After every transition both registers and the pointee are compared node by node with an abstract document model through the whole public read API (kinds, sizes, lookups by index/key/StringView, keys, strings, all numeric/boolean coercions, iteration order, Stringify). Depth 3 (quick) / 4 (thorough, state cap reported).',
+        'design_ref': 'DESIGN.md §5 C12',
+        'note': 'Positional access into objects is compared only while the object holds no removed entries (as the property states); SetPointerToValue(nullptr) and operator=(ValueType) are not in the alphabet (their meaning is not specified); Sort on mixed-kind arrays is left to C15.',
+        'technique': 'explicit-state BFS over operation histories on the implementation with an abstract-document reference model compared after every transition',
+    },
     'C15': {
         'level': 'Exhaustive over small alphabets on the real operators: all ordered pairs and all triples of the 121 strings of length <=4 over {a,b,0x01} through String, StringView, the const C* overloads and StringUtils::IsLess/IsGreater in char/char16_t/char32_t against the lexicographic reference (trichotomy, <=/>= unions, prefix-first, transitivity); all pairs and triples of 36 values of every kind including pointer-to-value; every array of length <=5 over 4 values (duplicates, prefix chain) through Array<int>, Array<String>, Value arrays, <loop sort>, HArray keys and Value object keys with and without a removed member, ascending and descending (ordered permutation, lookups afterwards, caller\'s value untouched).',
         'design_ref': 'DESIGN.md §5 C15',
